@@ -17,7 +17,8 @@ BUDGET = {"quick": 240, "thorough": 1800}
 ANCHORED = ["_Lagrangian._eval", "_Lagrangian.eval_gap", "_Lagrangian.solve_linprog", "_Lagrangian.best_h", "ExponentiatedGradient.fit"]
 RULE = ("random binary datasets n in 10..40, 2..3 groups, one feature with 2..5 distinct values, optional control feature; base "
         "learner = ExactLearner (exact weighted 0/1 minimiser over all labellings of the feature cells, or over 1-D thresholds in "
-        "both directions + constants) so the hypothesis class H is enumerable; 5 parity moments x 9 bound specs; eps in "
+        "both directions + constants; in a fifth of the cases wrapped in a scikit-learn Pipeline with sample_weight_name='clf__sample_weight') "
+        "so the hypothesis class H is enumerable; 5 parity moments x 9 bound specs; eps in "
         "{0.01..0.25}, max_iter in {1,3,6,10,25,50}, nu in {1e-6..0.05}, eta0 in {0.5,2,8}, LP step on/off. Oracle: err/gamma "
         "tables over H from refs/moments.py; Q = weights_ over predictors_[t].predict(X); true duality gap of (Q, lambda-hat) for "
         "lambda-hat in {mean of lambda_vecs_EG_[:, :best_iter_+1], lambda_vecs_LP_[best_iter_]} (minimum over the candidates) "
@@ -47,7 +48,15 @@ def run_case(cls, key, seed, ctx):
     nu = float(gen.pick(rng, [1e-6, 1e-4, 1e-3, 0.01, 0.05]))
     eta0 = float(gen.pick(rng, [0.5, 2.0, 8.0]))
     lp = bool(rng.random() < 0.6)
-    eg = red.ExponentiatedGradient(ExactLearner(hclass=hclass), moment, eps=eps, max_iter=max_iter, nu=nu, eta0=eta0, run_linprog_step=lp)
+    composite = bool(rng.random() < 0.2)
+    if composite:
+        from sklearn.pipeline import Pipeline
+        from sklearn.preprocessing import FunctionTransformer
+
+        eg = red.ExponentiatedGradient(Pipeline([("noop", FunctionTransformer()), ("clf", ExactLearner(hclass=hclass))]), moment, eps=eps, max_iter=max_iter,
+                                       nu=nu, eta0=eta0, run_linprog_step=lp, sample_weight_name="clf__sample_weight")
+    else:
+        eg = red.ExponentiatedGradient(ExactLearner(hclass=hclass), moment, eps=eps, max_iter=max_iter, nu=nu, eta0=eta0, run_linprog_step=lp)
     X, y, g, c = ML.wrap_inputs(rng, ds)
     kw = {"sensitive_features": g}
     if c is not None:
@@ -55,7 +64,7 @@ def run_case(cls, key, seed, ctx):
     eg.fit(X, y, **kw)
     B = 1.0 / eps
     wit = {"moment": kind, "bound": list(bound), "y": ds.y, "groups": ds.g, "control": ds.c, "x": ds.X[:, 0].tolist(), "hclass": hclass,
-           "eps": eps, "max_iter": max_iter, "nu": nu, "eta0": eta0, "lp": lp, "best_gap_": float(eg.best_gap_), "best_iter_": int(eg.best_iter_),
+           "eps": eps, "max_iter": max_iter, "nu": nu, "eta0": eta0, "lp": lp, "pipeline_estimator": composite, "best_gap_": float(eg.best_gap_), "best_iter_": int(eg.best_iter_),
            "last_iter_": int(eg.last_iter_)}
     ctx.ev("fits_checked")
     mom = eg.constraints
